@@ -14,7 +14,7 @@ Import ListNotations.
 Open Scope N_scope.
 
 (* ---- character classes used by the lexer ---- *)
-Definition is_space (c : N) : bool :=                      (* strings.ContainsRune("\n\r\t\f\v ", c) *)
+Definition is_space (c : N) : bool :=                      (* strings.ContainsRune of LF CR TAB FF VT SPACE *)
   (c =? 10) || (c =? 13) || (c =? 9) || (c =? 12) || (c =? 11) || (c =? 32).
 Definition is_digit (c : N) : bool := (48 <=? c) && (c <=? 57).
 Definition is_letter (c : N) : bool := ((97 <=? c) && (c <=? 122)) || ((65 <=? c) && (c <=? 90)).
